@@ -157,7 +157,18 @@ def gen_pattern(rng, o):
 
     n = int(rng.integers(2, 5))
     p = S.pick(rng, ["kron-diag", "kron-diag3", "sum-flat", "prod-flat", "scalar-merge", "identity", "kron-flat",
-                     "kronsum-flat", "scalar-of-scalar", "blockdiag-nested"])
+                     "kronsum-flat", "scalar-of-scalar", "blockdiag-nested", "scalar-extreme"])
+    if p == "scalar-extreme":
+        # scalars that are each representable while their product is not, on an operator whose entries compensate
+        dt_ = S.pick(rng, ["f4", "c8", "f8", "c16"])
+        unit, c1, c2 = S.pick(rng, {"f4": [(1e-15, 1e20, 1e20), (1e30, 1e-25, 1e-25)], "c8": [(1e-15, 1e20, 1e20), (1e30, 1e-25, 1e-25)],
+                                    "f8": [(1e-150, 1e200, 1e200), (1e300, 1e-200, 1e-200)], "c16": [(1e-150, 1e200, 1e200), (1e300, 1e-200, 1e-200)]}[dt_])
+        leaf = {"op": "leaf", "spec": {"k": S.pick(rng, ["Dense", "Generic"]), "shape": [n, int(rng.integers(1, 5))], "dt": dt_, "seed": S.seed(rng), "unit": unit}}
+        f1, f2 = S.pick(rng, [("smul", "smul"), ("muls", "muls"), ("smul", "muls"), ("divs", "divs")])
+        if f1 == "divs":
+            c1, c2 = 1.0 / c1, 1.0 / c2
+        inner = {"op": f1, "c": {"t": "float", "v": c1, "dt": dt_}, "args": [leaf]}
+        return {"op": f2, "c": {"t": S.pick(rng, ["float", "npscalar"]), "v": c2, "dt": dt_}, "args": [inner]}
     if p == "blockdiag-nested":
         # block_diag of operands that are block-diagonal themselves, with multiplicities (a flattening rule must keep them)
         def bd():
